@@ -166,6 +166,29 @@ def check_emitter_views(sd):
         gq = desq.get(t, {}).get('cell', {}).get(names[0], KeyError)
         if gq is KeyError or not qeq(gq, r['cell'][names[0]]):
             fails.append('get_data_deserialized(query)[%s][cell][%s] is %r, emitted %r' % (t, names[0], gq, r['cell'][names[0]]))
+    # a second writer of the same table (shared table / embed_path) adds variables at the times already recorded, after the
+    # views were read: every view taken afterwards lists them
+    if not fails:
+        extra = {t: copy.deepcopy(rng.choice(QVALS + VALS)) for t, _ in rows}
+        for t in extra:
+            em.emit({'table': 'history', 'data': {'time': t, 'other': {'w': copy.deepcopy(extra[t])}}})
+        try:
+            views = {'get_data_deserialized()': em.get_data_deserialized(), 'get_data_unitless()': em.get_data_unitless(),
+                     'get_data_deserialized(query)': em.get_data_deserialized([('cell', names[0])])}
+            ts = em.get_timeseries()
+        except Exception as e:
+            return ['views after a second writer raised %s: %s' % (type(e).__name__, str(e)[:150])]
+        for t in extra:
+            for nm in ('get_data_deserialized()', 'get_data_unitless()'):
+                got = views[nm].get(t, {}).get('other', {}).get('w', KeyError)
+                want = extra[t] if nm.endswith('deserialized()') else strip_units(extra[t])
+                if got is KeyError or not qeq(got, want):
+                    fails.append('%s[%s][other][w] is %r after it was emitted as %r by a second writer (view read before)'
+                                 % (nm, t, got, extra[t]))
+            if 'other' in views['get_data_deserialized(query)'].get(t, {}):
+                fails.append('queried view lists a variable that was not queried at %s' % t)
+        if 'other' not in ts:
+            fails.append('get_timeseries() lacks the variables emitted by a second writer after the first read: keys %s' % list(ts))
     return fails[:3]
 
 
